@@ -62,6 +62,10 @@ func execXO(o *Out, id, line string) {
 		o.Violate("C08", "NewReader did not return within 20s", "open-hang", line)
 		return
 	}
+	memOracle(o, line, "xflate-open", 4<<20, 1024, len(stream), func() int {
+		xflate.NewReader(bytes.NewReader(stream), nil)
+		return 0
+	})
 	res := "err:" + errClass(err)
 	if err == nil {
 		var rs []string
